@@ -44,6 +44,11 @@ theorem post_same_prior_as_marginal (x : KIn n k α) :
     rfl
   · right; exact hu
 
+/-- with a passing inverse certificate the certified posterior parameters are the model's `(a, A)` -/
+theorem certified_posterior_sound [DecidableEq α] (x : KIn n k α) (X : Mat k k α) (hX : checkInv x X = true) :
+    X.toM = (kA x).toM ∧ kaWith x X = ka x :=
+  ⟨checkInv_sound x X hX, kaWith_eq x X hX⟩
+
 omit [Field α] in
 /-- output layout: every emitted row is the unchanged nonlinear block followed by one draw, `nLinear`
 consecutive rows per sample, in draw order -/
